@@ -97,7 +97,23 @@ func stackHistory(L *lua.LState, r *rand.Rand, nops int, counts map[string]int) 
 	for s := 0; s < nops; s++ {
 		n := len(model)
 		var op string
-		switch k := r.Intn(14); {
+		switch k := r.Intn(15); {
+		case k == 14:
+			// popping more than the activation owns: an error, and nothing below the
+			// activation's own list is touched (the caller's sentinels are checked at
+			// the end of the history). The error is taken here, in the host function.
+			m := n + 1 + r.Intn(3)
+			op = fmt.Sprintf("Pop(%d) with %d values", m, n)
+			raised := false
+			func() {
+				defer func() { raised = recover() != nil }()
+				L.Pop(m)
+			}()
+			if !raised {
+				return fmt.Sprintf("op %d %s: no error, GetTop()=%d afterwards", s, op, L.GetTop())
+			}
+			L.SetTop(0) // (the error message the raise left behind)
+			model = model[:0]
 		case k < 4:
 			op = "Push"
 			v := fresh()
@@ -250,7 +266,7 @@ func runStack(c *fw.Ctx, idx int, count bool) {
 	// registry shapes: the default one, and small growable ones whose capacity
 	// is reached (and re-allocated) in the middle of the history, by every
 	// growth step
-	opts := lua.Options{RegistrySize: 256, RegistryMaxSize: 65536}
+	opts := lua.Options{RegistrySize: 256, RegistryMaxSize: 65536, MinimizeStackMemory: r.Intn(3) == 0}
 	if r.Intn(2) == 0 {
 		opts.RegistrySize = []int{40, 48, 64, 100, 128}[r.Intn(5)]
 		opts.RegistryGrowStep = []int{1, 1, 2, 3, 7, 32}[r.Intn(6)]
@@ -340,8 +356,9 @@ func runStack(c *fw.Ctx, idx int, count bool) {
 
 // ---------- (2) call contract ----------
 
-func runCallContract(c *fw.Ctx, count bool) {
-	L := lua.NewState()
+func runCallContract(c *fw.Ctx, count bool, autoGrow bool) {
+	// both call-frame stack implementations: the fixed one and the auto-growing one
+	L := lua.NewState(lua.Options{MinimizeStackMemory: autoGrow})
 	defer L.Close()
 	Lmain := L
 	idx := 0
@@ -665,7 +682,9 @@ func runObjects(c *fw.Ctx, count bool) {
 	var operands []lua.LValue
 	pool.ForEach(func(_, v lua.LValue) { operands = append(operands, v) })
 	operands = append(operands, lua.LNil)
-	keys := []lua.LValue{lua.LString("present"), lua.LString("missing"), lua.LNumber(1), lua.LNumber(9), lua.LString("x"), lua.LString("inherited"), lua.LNil}
+	// (numbers next to an integer key are keys of their own: 1.5 is not 1)
+	keys := []lua.LValue{lua.LString("present"), lua.LString("missing"), lua.LNumber(1), lua.LNumber(9), lua.LString("x"), lua.LString("inherited"), lua.LNil,
+		lua.LNumber(1.5), lua.LNumber(1.999), lua.LNumber(0.25), lua.LNumber(9.5), lua.LNumber(-1), lua.LString("1")}
 	goCall := func(f func(L *lua.LState) []lua.LValue) (string, bool) {
 		var out []lua.LValue
 		fn := L.NewFunction(func(L *lua.LState) int {
@@ -838,7 +857,8 @@ func run(c *fw.Ctx) {
 			runStack(c, i, true)
 		}
 	}
-	runCallContract(c, true)
+	runCallContract(c, true, false)
+	runCallContract(c, true, true)
 	runObjects(c, true)
 	e := newObjEnv()
 	defer e.L.Close()
@@ -876,7 +896,8 @@ func replay(c *fw.Ctx, raw json.RawMessage) {
 		runStack(c, cs.Idx, false)
 	case "call":
 		c.NShards, c.Shard = 1, 0
-		runCallContract(c, false)
+		runCallContract(c, false, false)
+		runCallContract(c, false, true)
 	default:
 		c.NShards, c.Shard = 1, 0
 		runObjects(c, false)
